@@ -1750,6 +1750,14 @@ def cv_specs(thorough):
         for si, comps in enumerate(singles + with_tc[::3] + pairs + big):
             if thorough or (si + ci) % 2 == 0:
                 put(name, "bare" if si % 2 else "list", comps, "raw" if si % 3 else "dd", coq=si % 12 == 0, both=False)
+    # quick slice: one representative of each kind of case that only the full product used to reach (NOTES, "The thorough tier
+    # of the class-value stream"): a datetime as old_value (finding C14-DATETIME-TZ), a function / a class with a metaclass as
+    # the bare new value of a type change; appended, so the indices of the cases above do not move
+    if not thorough:
+        for name, comps in (("datetime.datetime", ["vc"]), ("builtins.bin", ["tcV"]), ("collections.namedtuple", ["tcV"]),
+                            ("deepdiff.helper.SetOrdered", ["tcV"])):
+            if name in names:
+                put(name, "bare", comps, "dd", bids=(False, True))
     return specs
 
 
